@@ -384,6 +384,7 @@ func NewFECase(g *Gen, id int) *Case {
 			if vs := vals[k]; len(vs) > 0 && g.R.P(65) {
 				i := g.R.Intn(len(vs))
 				vals[k] = append(append(append([]string{}, vs[:i]...), Pick(g.R, []string{"", " "})), vs[i:]...)
+				comparable = false // (no longer the same record as the Go map)
 			}
 		}
 		if g.R.P(20) && len(n.Fields) > 0 { // []-suffixed spelling of a list parameter
